@@ -30,5 +30,18 @@ def MD(hid, tier_hash="quick"):
     )
 
 
-HARNESSES = [MD(256), MD(1), MD(512), MD(5, tier_hash="thorough")]
+def HMAC(hid, blk):
+    kls = [0, 1, 20, blk - 1, blk, blk + 1, blk + 9]
+    return dict(
+        name="hmac_%d" % hid, src="hmac.c", checks=COMMON["MEMCHECKS"],
+        functions=["psHmacMd5/Sha1/Sha256/Sha384 (one-shot)", "psHmac*Init", "psHmac*Update", "psHmac*Final"],
+        sources=["crypto/digest/hmac.c"],
+        assumptions=["hmac: digest Init/Update/Final are logging stubs (per session: exact bytes absorbed; arbitrary digest); key and message lengths enumerated, contents symbolic"],
+        unwind=220,
+        cases=[dict(name="k%d_m%d" % (kl, ml), tier=("quick" if ml == 3 else "thorough"), defs={"VF_HASH": hid, "VF_KL": kl, "VF_ML": ml})
+               for kl in kls for ml in (3, 0, 70)],
+    )
+
+
+HARNESSES = [MD(256), MD(1), MD(512), MD(5, tier_hash="thorough"), HMAC(5, 64), HMAC(1, 64), HMAC(256, 64), HMAC(384, 128)]
 PROPERTY = dict(level="model_checking", explanation="", bounds="", outside="", assumptions=[])
